@@ -556,13 +556,6 @@ Section Surface.
 End Surface.
 
 (* ---- positive affine change of the target, positive rescaling of facets ------------- *)
-Definition orel (a : Q) (o o' : option Q) : Prop :=
-  match o, o' with
-  | Some m, Some m' => m' == a * m
-  | None, None => True
-  | _, _ => False
-  end.
-
 Lemma Forall2_existsb {A} (R : A -> A -> Prop) (p p' : A -> bool) l l' :
   Forall2 R l l' -> (forall x x', R x x' -> p x = p' x') -> existsb p l = existsb p' l'.
 Proof. intros H E. induction H as [|x x' l l' Hx _ IH]; cbn; [reflexivity|]. now rewrite (E _ _ Hx), IH. Qed.
@@ -723,4 +716,16 @@ Proof.
   - unfold is_lower. apply Bool.eq_true_iff_eq. rewrite !Qltb_lt. rewrite Eny.
     split; intros H; nra.
   - intros Hny. rewrite !ddist_gval, Eg, Eny. field. split; lra.
+Qed.
+
+(* score_feature_matrix: where the interpolant reproduces the high-dimensional features (the
+   interpolator's contract at its nodes, the selected samples) the residual row is zero *)
+Lemma sfm_node_zero interp low high x :
+  Forall2 Qeq (interp (select 0 low x)) (select 0 high x) ->
+  score_feature_matrix interp low high [x]
+    = [map2 Qminus (select 0 high x) (interp (select 0 low x))] /\
+  Forall (fun r => r == 0) (map2 Qminus (select 0 high x) (interp (select 0 low x))).
+Proof.
+  intros H. split; [reflexivity|].
+  induction H as [|a b l m Hab _ IH]; cbn; [constructor|]. constructor; [lra|exact IH].
 Qed.
